@@ -148,7 +148,7 @@ def run_case(case):
     import numpy as np
     from bioscrape.lineage import LineageModel
     C = Counter()
-    viol = []
+    viol = util.ViolList()
     sp = case["spec"]
     dt, n = case["dt"], case["n"]
     tp = dt * np.arange(n)
